@@ -125,12 +125,13 @@ type PkgContracts struct {
 	Monitors map[string]*MonitorDecl
 	Axioms   []AxiomDecl
 	Props    map[string][]string // property -> function keys
+	Locksets map[string][]string // property -> types whose fields carry lock-discipline obligations
 	GhostGlobals []GhostField
 	Assumptions []string
 	NLines   int
 }
 
-var kwRe = regexp.MustCompile(`^(arith|monitor|field|ghost|pure|opaque|invariant|func|extern|trusted|lemma|env|does|requires|ensures|modifies|loop|axiom|property|locked|constructor|noeffect|assume|option|note)\b`)
+var kwRe = regexp.MustCompile(`^(arith|monitor|field|ghost|pure|opaque|invariant|func|extern|trusted|lemma|env|does|requires|ensures|modifies|loop|axiom|property|lockset|global|locked|constructor|noeffect|assume|option|note)\b`)
 
 var nameTagRe = regexp.MustCompile(`^\[([A-Za-z0-9_.\-]+)\]\s*`)
 
@@ -458,6 +459,27 @@ func loadContractsFile(pkgPath, dir, file string) (*PkgContracts, error) {
 					pc.Props[id] = append(pc.Props[id], f)
 				}
 			}
+			cur = nil
+		case "lockset":
+			parts := strings.SplitN(rest, ":", 2)
+			if len(parts) != 2 {
+				return nil, fail(rc.line, "lockset: want `lockset ID: Type, ...`")
+			}
+			if pc.Locksets == nil {
+				pc.Locksets = map[string][]string{}
+			}
+			for _, id := range strings.Fields(parts[0]) {
+				for _, t := range strings.FieldsFunc(parts[1], func(r rune) bool { return r == ',' || r == ' ' }) {
+					pc.Locksets[id] = append(pc.Locksets[id], t)
+				}
+			}
+			cur = nil
+		case "global":
+			fs := strings.Fields(rest)
+			if len(fs) < 2 {
+				return nil, fail(rc.line, "global: want `global name class`")
+			}
+			pc.Fields = append(pc.Fields, FieldDecl{Type: "global", Name: fs[0], Class: fs[1], Arg: strings.Join(fs[2:], " ")})
 			cur = nil
 		case "assume", "note":
 			pc.Assumptions = append(pc.Assumptions, rest)
